@@ -174,4 +174,18 @@ theorem prefixFree_sound (l : List Bytes) (h : prefixFree l = true) (p q : Bytes
 
 theorem methods_prefixFree : prefixFree (approvalMethods.map strBytes) = true := by decide
 
+/-- little-endian 8-byte ids are unambiguous below 2^64 -/
+theorem u64le_inj (a b : Nat) (ha : a < 18446744073709551616) (hb : b < 18446744073709551616) (h : u64le a = u64le b) : a = b := by
+  simp only [u64le, List.range, List.range.loop, List.map_cons, List.map_nil, List.cons.injEq, and_true] at h
+  obtain ⟨h0, h1, h2, h3, h4, h5, h6, h7⟩ := h
+  have c : ∀ x y : Nat, UInt8.ofNat (x % 256) = UInt8.ofNat (y % 256) → x % 256 = y % 256 := by
+    intro x y e
+    have := congrArg UInt8.toNat e
+    simp only [UInt8.toNat_ofNat'] at this
+    omega
+  have e0 := c _ _ h0; have e1 := c _ _ h1; have e2 := c _ _ h2; have e3 := c _ _ h3
+  have e4 := c _ _ h4; have e5 := c _ _ h5; have e6 := c _ _ h6; have e7 := c _ _ h7
+  simp only [Nat.shiftRight_eq_div_pow] at e0 e1 e2 e3 e4 e5 e6 e7
+  omega
+
 end Poly.Model.Gov
